@@ -50,13 +50,17 @@ class C14(Prop):
             if rng.random() < 0.3 and len(c["profile"]) > 1:
                 # plant a first-place majority
                 c["profile"][0][1] = sum(mm for _, mm in c["profile"]) + rng.randint(0, 2)
-            yield {"kind": "rule", "rule": rule, **c}
+            yield {"kind": "rule", "rule": rule, "grow": rng.random() < 0.2, **c}
 
     def run_impl(self, case):
         from preflibtools.aggregation import singlewinner as SW
         self.count("rule:" + case["rule"] + "/" + case["type"])
-        inst = gen.inst_of(case)
         f = getattr(SW, case["rule"] + "_voting_winner")
+        inst = None
+        if case.get("grow"):
+            inst = gen.grown_instance(gen.from_json_profile(case["profile"]), case["alts"], case["type"], f)
+        if inst is None:
+            inst = gen.inst_of(case)
         r = call(f, inst, limit=self.impl_limit)
         if r[0] == "ok":
             try:
